@@ -45,6 +45,14 @@ var arenaSkipPrefix = []string{"c17.", "stream.", "reorder.", "race.", "buf."}
 // to b): writing into the spare capacity is their contract, only the answer is compared
 var arenaAppendOK = map[string]bool{"mh.run": true}
 
+// the operation a case is about: `net.with <net> <op> …` is about <op>
+func innerOp(op string, args []string) string {
+	if op == "net.with" && len(args) >= 2 {
+		return args[1]
+	}
+	return op
+}
+
 func arenaEligible(op string) bool {
 	if arenaOff {
 		return false
@@ -138,7 +146,7 @@ func (r *Runner) reuseReplay() {
 				Detail: "[arguments in reused buffers with spare capacity] " + d}, false)
 		}
 		for k, s := range arena.used {
-			if arenaAppendOK[c.op] {
+			if arenaAppendOK[innerOp(c.op, c.args)] {
 				break
 			}
 			full := s[:cap(s)]
